@@ -975,7 +975,12 @@ class Prop(Check):
             "histories of one meta-model: 1..3 steps of (re-)registration and model load, 1..3 rules with t / ts(list) / u, "
             "every assignment with its own match rule (no split parameter, '.', '/', '::', '/'-separated without "
             "parameter), names of 2..3 parts, values = RREL strings, RREL provider objects with / without split_string, "
-            "callables, one object bound to several keys.  env (configuration of the meta-model around the provider "
+            "callables, one object bound to several keys; re-registrations that take keys away: the empty dictionary, a "
+            "sub-dictionary of the registration in force, the same keys bound to other values.  histories of one "
+            "meta-model over the key subsets (16 cases, complete): all 16 x 16 ordered pairs (subset in force -> subset "
+            "registered next) of the subsets of {Rule.attr, *.attr, Rule.*, *.*} as consecutive registrations, each "
+            "followed by a model load, focus on single / list attributes of two rules, some assignments with a grammar "
+            "RREL.  env (configuration of the meta-model around the provider "
             "call): complete enumeration of the 2^4 subsets x grammar RREL y/n x single / list attribute in a meta-model "
             "with builtins {x: defined in the model too, w: builtin only, y: non-conforming class} while "
             "textx_tools_support, user classes, auto_init_attributes and a postponing provider rotate (64 cases); half of "
